@@ -62,6 +62,7 @@ func (s *stream) Reassembled(rs []tcpassembly.Reassembly) {
 func (s *stream) ReassemblyComplete() { s.inst.Completed++ }
 
 type harness struct {
+	t0    time.Time // start time of the current history: time never goes backwards on a recycled instance
 	pool  *tcpassembly.StreamPool
 	asm   *tcpassembly.Assembler
 	cur   *hist
@@ -89,11 +90,16 @@ func (h *harness) reset() {
 	h.stale = false
 }
 
-var t0 = time.Unix(1_000_000, 0)
+var epoch = time.Unix(1_000_000, 0)
 
 func (h *harness) run(cfg config, alpha []tm.Event, seq []int) (hs *hist) {
 	hs = &hist{dir: tm.NewDir(h.n)}
 	h.cur = hs
+	if h.t0.IsZero() {
+		h.t0 = epoch
+	}
+	h.t0 = h.t0.Add(time.Duration(len(seq)+3) * time.Second)
+	t0 := h.t0
 	h.asm.MaxBufferedPagesPerConnection = cfg.perConn
 	h.asm.MaxBufferedPagesTotal = cfg.total
 	h.ctr++
@@ -186,6 +192,18 @@ func main() {
 		fmt.Println("no violation reproduced")
 		os.Exit(0)
 	}
+	var curCfg config
+	var hangLocals []*report.Local
+	statex.OnHang = func(seq []int) {
+		r.Violation("hang|a history does not terminate", fmt.Sprintf("no progress for %v on one history; %s", statex.HangAfter, curCfg), 0, describe(curCfg, alpha, seq, n))
+		for _, l := range hangLocals {
+			r.MergeLocal(l)
+		}
+		r.Exhaustive = false
+		r.Coverage["states"], r.Coverage["transitions"], r.Coverage["traces_validated_against_impl"] = 1, 1, 0
+		r.Coverage["samples"] = []any{describe(curCfg, alpha, seq, n)}
+		r.Finish()
+	}
 	workers := runtime.NumCPU()
 	hs := make([]*harness, workers)
 	for i := range hs {
@@ -200,11 +218,13 @@ func main() {
 	for i := range locals {
 		locals[i] = report.NewLocal()
 	}
+	hangLocals = locals
 	deliveries := make([]int64, workers)
 	strict := make([]int64, workers)
 	for _, isn := range tm.ISNs(n) {
 		for _, lim := range limits {
 			cfg := config{isn, lim[0], lim[1]}
+			curCfg = cfg
 			local := make([]map[string]struct{}, workers)
 			for i := range local {
 				local[i] = map[string]struct{}{}
